@@ -2,14 +2,27 @@
    Only the property theorems (closed by `exact`), the non-vacuity examples and the assumption
    audit.  Definitions: Model/TapeMachine.v (scripts over several WengertLists, registers),
    Model/Container.v (the operations), Proofs/C15P.v, Proofs/C15Q.v, Proofs/C15R.v.
-   No theorem of this file is partial.  State after the extension round (session 3):
+   No theorem of this file is partial.  State after the extension round (session 3, wave 3):
+     - `impl Sum for Record` is an OPERATION of the machine (TSum dst regs: left fold from
+       Record::zero() with the four-arm match; a sum that panics at its k-th record keeps the
+       partial sums of the first k - 1 on the list - the one operation of the machine whose
+       panic changes the state).  C15_next_unused is restated so that it covers Sum results
+       (a record result sits at the LAST entry appended by its operation; for every operation
+       but Sum exactly one entry was appended: the previous statement is kept verbatim as
+       C15_next_unused_single_entry); C15_cross_tape_sum_rejected / _sum_never_completes: a sum
+       over records of two lists panics, writes no register, and leaves exactly the documented
+       partial appends; C15_sum_appends (what one Sum does to the machine);
+       C15_sum_is_the_container_fold (a completed Sum is Container.each_sum, i.e. C04's Sum
+       node by Proofs/C04S.v); C15_sum_derivs_length (the derivative set of a Sum result).
+       Every other theorem below is unchanged in statement and now also quantifies over
+       scripts containing TSum (cycle, frame, derivative-length, reachable-state theorems).
      - C15_cross_tape_rejected / _matmul_rejected : per step, from ANY state.  `same_kind`
        only excludes operand pairs for which the crate has no operator at all (record x
        container, RecordTensor x RecordMatrix: the machine reports them as skipped);
        C15_cross_tape_never_mixes drops that hypothesis (panic or skipped, state unchanged).
      - C15_derivs_length (per step, any state, records and container elements) and its
        run-level form C15_derivs_length_run (any script, any interleaving, any state).
-     - C15_next_unused : every operation except clear (clear is the one operation that
+     - C15_next_unused : every operation except clear, Sum included (clear is the one operation that
        shrinks a list: C15_clear_restarts_positions - exactly that list becomes empty,
        nothing else changes, so positions start again at 0).
      - C15_cycle_equiv : scripts local to ONE list against a brand-new machine, and
@@ -72,19 +85,110 @@ Proof. exact @derivs_length. Qed.
 
 (* After ANY machine step other than clear: the old tape of every list is a prefix of the new
    one (`grows`), and every newly created object occupies the next unused positions of its list
-   (`val_fresh`): a record sits at the old length, one entry appended; the elements of a
-   container made by a constructor or an elementwise operation (all unary kinds, all binary
-   kinds in the four invocation modes) are exactly old length, old length + 1, ... in iteration
-   order, as many as entries were appended; the cells of either matrix product are strictly
-   increasing positions inside [old length, new length) (each cell is the last of the entries
-   appended for it, so they are not contiguous); reset / reset-all hand out strictly
+   (`val_fresh`): a record result sits at the LAST entry its operation appended - position
+   old length + length pre, the list having grown by pre ++ [e] - where pre = [] (one entry
+   appended, the record sits at the old length) for every operation except `impl Sum`
+   (`single` flag = negb (is_sum op)); a Sum over n records appends the partial sums, between 1
+   and n entries, and its result is the last of them (C15_sum_appends bounds the number); the
+   elements of a container made by a constructor or an elementwise operation (all unary
+   kinds, all binary kinds in the four invocation modes) are exactly old length, old length + 1,
+   ... in iteration order, as many as entries were appended; the cells of either matrix product
+   are strictly increasing positions inside [old length, new length) (each cell is the last of
+   the entries appended for it, so they are not contiguous); reset / reset-all hand out strictly
    increasing positions inside [old length, new length).  Positions therefore strictly increase
-   between clears. *)
+   between clears.  (A panicking Sum keeps its partial appends: `grows` covers that too.) *)
 Theorem C15_next_unused :
   forall (R : Type) (ops : numops R) (st : @state R) op st' v,
   step ops st op = Some (st', v) -> (forall t, op <> TClear t) ->
-  grows st st' /\ val_fresh (negb (is_matmul op)) st st' v.
+  grows st st' /\ val_fresh (negb (is_matmul op)) (negb (is_sum op)) st st' v.
 Proof. exact @next_unused. Qed.
+
+(* the statement C15_next_unused had before `impl Sum` became an operation of the machine, kept
+   verbatim (`val_fresh_single`: a record result appended exactly ONE entry and sits at the
+   old length): it holds for every operation other than clear and Sum *)
+Theorem C15_next_unused_single_entry :
+  forall (R : Type) (ops : numops R) (st : @state R) op st' v,
+  step ops st op = Some (st', v) -> (forall t, op <> TClear t) -> (forall dst rs, op <> TSum dst rs) ->
+  grows st st' /\ val_fresh_single (negb (is_matmul op)) st st' v.
+Proof. exact @next_unused_single. Qed.
+
+(* `impl Sum for Record`.  The transcribed loop body (the four-arm match of
+   record_operations.rs) is the `+` of two records ... *)
+Theorem C15_sum_step_is_record_addition :
+  forall (R : Type) (ops : numops R) tp (total next : rec R),
+  sum_step ops tp total next = rec_binary ops tp (Addition ops) total next.
+Proof. exact @sum_step_is_add. Qed.
+
+(* ... hence a COMPLETED Sum over registers holding the records xs is the container model's fold
+   `each_sum` from Record::zero() (the fold Proofs/C04S.v proves equal to C04's Sum node, entry
+   for entry), run on the list of the first non-constant record through the same finish /
+   on_tape path as every other operation *)
+Theorem C15_sum_is_the_container_fold :
+  forall (R : Type) (ops : numops R) (st : @state R) dst rs xs st' z,
+  get_recs st rs = Some xs ->
+  step ops st (TSum dst rs) = Some (st', Ok (VRec z)) ->
+  finish st dst (on_tape st (sum_hist xs)
+                   (fun tp => as_rec (each_sum ops tp (rec_constant (nzero ops)) xs))) = Some (st', Ok (VRec z)).
+Proof. exact @sum_ok_is_each_sum. Qed.
+
+(* What one Sum does to the machine (any state, any registers holding records xs): there is an
+   intermediate state st1 = st with ONLY the list of the first non-constant summed record
+   extended, by at most one entry per summed record (nothing at all when every record is a
+   constant); the outcome is a panic with st' = st1 (no register written, the partial appends
+   stay), or a record z written to dst whose history is that list, sitting at the LAST appended
+   entry (a constant z: nothing was appended). *)
+Theorem C15_sum_appends :
+  forall (R : Type) (ops : numops R) (st : @state R) dst rs xs st' v,
+  get_recs st rs = Some xs ->
+  step ops st (TSum dst rs) = Some (st', v) ->
+  exists st1, grows st st1 /\ regs st1 = regs st /\
+    (forall t, sum_hist xs <> Some t -> tape_of st1 t = tape_of st t) /\
+    (forall t tp, sum_hist xs = Some t -> tape_of st t = Some tp ->
+       exists suf, tape_of st1 t = Some (tp ++ suf) /\ length suf <= length rs /\
+         (forall z, v = Ok (VRec z) -> r_hist z = Some t /\
+            exists pre e, suf = pre ++ [e] /\ r_idx z = length tp + length pre)) /\
+    (sum_hist xs = None -> st1 = st /\ forall z, v = Ok (VRec z) -> r_hist z = None) /\
+    ((v = Panic /\ st' = st1) \/
+     (exists z, v = Ok (VRec z) /\ st' = put st1 dst (ORec z) /\ r_hist z = sum_hist xs)).
+Proof. exact @sum_step_spec. Qed.
+
+(* C15_cross_tape_rejected for Sum.  The summed registers are pre ++ b :: post where the
+   registers of `pre` hold records xs that are constants or live on list t1 (at least one on
+   t1), register b holds a record of ANOTHER list t2, `post` holds any records.  The call
+   panics, writes no register, and the lists are exactly those after summing `pre` alone: the
+   partial sums appended before the same-list assertion failed stay on list t1 (unlike every
+   other rejected operation, which leaves the machine unchanged), no other list changes. *)
+Theorem C15_cross_tape_sum_rejected :
+  forall (R : Type) (ops : numops R) (st : @state R) dst pre b post xs y ys t1 t2 r,
+  get_recs st pre = Some xs -> get st b = ORec y -> get_recs st post = Some ys ->
+  sum_hist xs = Some t1 -> Forall (fun x => r_hist x = None \/ r_hist x = Some t1) xs ->
+  r_hist y = Some t2 -> t1 <> t2 ->
+  step ops st (TSum dst (pre ++ b :: post)) = Some r ->
+  exists stp z, step ops st (TSum dst pre) = Some (stp, Ok (VRec z)) /\ r_hist z = Some t1 /\
+    r = (mkState (tapes stp) (regs st), Panic).
+Proof. exact @cross_tape_sum. Qed.
+
+(* ... and without any assumption on the order or the kinds: if two of the summed registers hold
+   objects of two different lists, the Sum never completes and never writes a register (panic,
+   or `Err 9` = skipped when a register holds a container / nothing) *)
+Theorem C15_cross_tape_sum_never_completes :
+  forall (R : Type) (ops : numops R) (st : @state R) dst rs a b t1 t2 st' v,
+  In a rs -> In b rs -> obj_hist (get st a) = Some t1 -> obj_hist (get st b) = Some t2 -> t1 <> t2 ->
+  step ops st (TSum dst rs) = Some (st', v) -> regs st' = regs st /\ (v = Panic \/ v = Err (SZ 9%Z)).
+Proof. exact @cross_tape_sum_never_ok. Qed.
+
+(* "every derivative set has exactly one entry per tape entry" for a Sum result: the derivative
+   set taken right after the Sum has one entry per entry of the list INCLUDING the entries the
+   Sum appended (old length + length pre + 1), and the Sum result is its last entry.
+   (C15_derivs_length / C15_derivs_length_run cover a Sum result at any later point: they
+   speak about whatever record a register holds.) *)
+Theorem C15_sum_derivs_length :
+  forall (R : Type) (ops : numops R) (st : @state R) dst rs st1 z st2 el d,
+  step ops st (TSum dst rs) = Some (st1, Ok (VRec z)) ->
+  step ops st1 (TDerivs dst el) = Some (st2, Ok (VDerivs (Some d))) ->
+  exists t tp pre en, r_hist z = Some t /\ tape_of st t = Some tp /\ tape_of st1 t = Some (tp ++ pre ++ [en]) /\
+    length d = length tp + length pre + 1 /\ r_idx z + 1 = length d /\ length pre < length rs.
+Proof. exact @sum_derivs_length. Qed.
 
 (* clear, the one operation C15_next_unused excludes: it empties exactly the named list and
    touches no other list and no register (objects of the list become stale, they are not
@@ -202,6 +306,50 @@ Example C15_nonvacuous :
     input_ok 0 (get st 0).
 Proof. cbv zeta. do 2 eexists. vm_compute. repeat split; reflexivity. Qed.
 
+(* non-vacuity of the Sum theorems: x0, x1 on list 0, a constant, y on list 1.  sum(x0, c, x1)
+   appends THREE entries (0 + x0, + c, + x1) and sits at the last one (position 4), its
+   derivative set has 5 entries; sum(x0, x1, y, x0) panics at y, keeps the two partial sums
+   (list 0 now has 7 entries: the derivative set of x0 shows it), writes no register; the
+   empty sum and a sum of constants are constants; summing one variable appends one entry. *)
+Example C15_sum_nonvacuous :
+  let script := [TVar 0 0 3%Z; TVar 1 0 4%Z; TConst 2 10%Z; TVar 3 1 5%Z; TSum 4 [0; 2; 1]; TDerivs 4 0;
+                 TSum 5 [0; 1; 3; 0]; TDerivs 0 0; TSum 6 []; TSum 7 [2; 2]; TSum 8 [3]; TDerivs 8 0] in
+  exists st vs, tm_run Zops6 (init 2) script = Some (st, vs) /\
+    nth 4 vs Panic = Ok (VRec (mkRec 17%Z (Some 0) 4)) /\
+    nth 5 vs Panic = Ok (VDerivs (Some [1; 1; 1; 1; 1]%Z)) /\
+    nth 6 vs (Ok VUnit) = Panic /\ get st 5 = ODead /\
+    nth 7 vs Panic = Ok (VDerivs (Some [1; 0; 0; 0; 0; 0; 0]%Z)) /\
+    nth 8 vs Panic = Ok (VRec (mkRec 0%Z None 0)) /\ nth 9 vs Panic = Ok (VRec (mkRec 20%Z None 0)) /\
+    nth 10 vs Panic = Ok (VRec (mkRec 5%Z (Some 1) 1)) /\
+    map (@length _) (tapes st) = [7; 2] /\
+    (* the hypotheses of C15_cross_tape_sum_rejected hold for pre = [0; 1], b = 3, post = [0] *)
+    sum_hist [mkRec 3%Z (Some 0) 0; mkRec 4%Z (Some 0) 1] = Some 0.
+Proof. cbv zeta. do 2 eexists. vm_compute. repeat split; reflexivity. Qed.
+
+(* non-vacuity of the cycle theorems on scripts that contain Sum: history with a stale sum in
+   register 5; inputs x0, x1 on list 0; the script sums (x0, c, x1), takes the derivative set,
+   clears, resets both inputs and sums again in the other order.  It is local to list 0 (hence
+   also wide), so C15_cycle_equiv applies: same results on a brand-new machine. *)
+Example C15_cycle_sum_nonvacuous :
+  let history := [TVar 0 0 3%Z; TVar 1 0 4%Z; TSum 5 [0; 1; 0]; TVar 6 1 9%Z] in
+  let P := [TConst 2 7%Z; TSum 3 [0; 2; 1]; TDerivs 3 0; TClear 0; TReset 0; TReset 1; TSum 3 [1; 0]; TDerivs 3 0] in
+  exists st0 vs0 st1 vs1 stf res,
+    tm_run Zops6 (init 2) history = Some (st0, vs0) /\
+    NoDup [1; 0] /\ (forall a, In a [1; 0] -> input_ok 0 (get st0 a)) /\
+    tm_run Zops6 st0 (TClear 0 :: map TReset [1; 0]) = Some (st1, vs1) /\
+    local_run Zops6 (mem [1; 0]) 0 st1 P /\
+    tm_run Zops6 st1 P = Some (stf, res) /\
+    nth 1 res Panic = Ok (VRec (mkRec 14%Z (Some 0) 4)) /\
+    nth 2 res Panic = Ok (VDerivs (Some [1; 1; 1; 1; 1]%Z)) /\
+    nth 6 res Panic = Ok (VRec (mkRec 7%Z (Some 0) 3)).
+Proof.
+  cbv zeta. do 6 eexists. split; [vm_compute; reflexivity|].
+  split; [repeat constructor; cbn; intuition discriminate|].
+  split; [intros a [<-|[<-|[]]]; vm_compute; repeat split; reflexivity|].
+  split; [vm_compute; reflexivity|]. split; [vm_compute; repeat split; reflexivity|].
+  repeat split; vm_compute; reflexivity.
+Qed.
+
 (* non-vacuity of C15_cycle_equiv: a machine with history on two lists and a stale product in
    register 6; inputs: the record in register 0 and the 2x2 variables matrix in register 3; the
    script P squares x, multiplies the matrix by itself, takes derivatives, clears and resets x
@@ -273,6 +421,13 @@ Print Assumptions C15_cross_tape_rejected.
 Print Assumptions C15_cross_tape_matmul_rejected.
 Print Assumptions C15_derivs_length.
 Print Assumptions C15_next_unused.
+Print Assumptions C15_next_unused_single_entry.
+Print Assumptions C15_sum_step_is_record_addition.
+Print Assumptions C15_sum_is_the_container_fold.
+Print Assumptions C15_sum_appends.
+Print Assumptions C15_cross_tape_sum_rejected.
+Print Assumptions C15_cross_tape_sum_never_completes.
+Print Assumptions C15_sum_derivs_length.
 Print Assumptions C15_clear_restarts_positions.
 Print Assumptions C15_cycle_equiv.
 Print Assumptions C15_cross_tape_never_mixes.
